@@ -329,6 +329,14 @@ func (ei *EffectsInfo) analyse(f *ssa.Function) bool {
 				return get(c.Args[0])
 			case "slices.Grow", "slices.Clip":
 				return get(c.Args[0])
+			case "maps.Clone":
+				// a fresh map - but nil for a nil argument: unless the argument is known to be freshly made, the
+				// result may be the nil map
+				a := get(c.Args[0])
+				if a&^LocFresh != 0 || a == 0 {
+					return LocFresh | LocNil
+				}
+				return LocFresh
 			case "maps.Copy", "maps.DeleteFunc":
 				write(ins, get(c.Args[0]), name+" writes the map "+get(c.Args[0]).Describe(f))
 				return 0
